@@ -7,7 +7,11 @@
    Ops: read / readword / readline (each either delivering data or nothing), printf /
    write (output), errprintf / errwrite (error stream; its own writer in the code).
    `mode` is the kind of the last thing copied to the transcript; Variant "readline-out"
-   (the code before the fix) sets the kind to OUTPUT after a ReadLine banner. *)
+   (the code before the fix) sets the kind to OUTPUT after a ReadLine banner.
+   Every payload is copied VERBATIM, whatever bytes it consists of (the harness puts a
+   '%' into every one); Variant "reformat" (the code before fix 3cf3487: ReadWord,
+   ReadLine, Printf and PrintErrf handed the data to Printf as a format string) mangles
+   the payloads of those four operations and must violate Verbatim. *)
 EXTENDS Naturals, Sequences, TLC, Json
 CONSTANTS MaxOps, Variant
 Ops == {"read", "readword", "readline", "read0", "readword0", "readline0", "printf", "write", "errprintf", "errwrite"}
@@ -23,7 +27,8 @@ Do(op) ==
   /\ LET k == Kind(op) IN
      IF k = "none" THEN UNCHANGED <<mode, outT, errT>>
      ELSE LET banner == mode # k
-              items == (IF banner THEN <<"B:" \o k>> ELSE <<>>) \o <<"P:" \o op>> IN
+              mangled == Variant = "reformat" /\ op \in {"readword", "readline", "printf", "errprintf"}
+              items == (IF banner THEN <<"B:" \o k>> ELSE <<>>) \o <<(IF mangled THEN "M:" ELSE "P:") \o op>> IN
           /\ mode' = IF Variant = "readline-out" /\ op = "readline" /\ banner THEN "out" ELSE k
           /\ IF k = "err" THEN errT' = errT \o items /\ UNCHANGED outT ELSE outT' = outT \o items /\ UNCHANGED errT
   /\ PrintT(ToJson([k |-> "rep", ops |-> hist', out |-> outT', err |-> errT']))
@@ -35,4 +40,6 @@ BannerCount == LET m == Merged IN
   LET changes == IF m = <<>> THEN 0 ELSE 1 + Len(SelectSeq([i \in 1..(Len(m) - 1) |-> <<Kind(m[i]), Kind(m[i + 1])>>], LAMBDA p : p[1] # p[2]))
       banners(t) == Len(SelectSeq(t, LAMBDA x : x \in {"B:in", "B:out", "B:err"})) IN
   banners(outT) + banners(errT) = changes
+Verbatim == \A i \in 1..Len(outT) : outT[i] \notin { "M:" \o op : op \in Ops }
+Verbatim2 == \A i \in 1..Len(errT) : errT[i] \notin { "M:" \o op : op \in Ops }
 =============================================================================
